@@ -81,7 +81,10 @@ def run(ctx):
             return not jf and not fjf and not noout and not fjs
         corners = [c for c in bad if plain(c) and ((c[7] == "bogus" and c[0] and not c[1] and c[2]) or (c[7] == "unset" and c[9] == "failing" and c[0] and not c[1] and c[2])
                                                    or (c[7] == "unset" and not c[2] and c[0] and not c[1]) or (c[7] == "unset" and c[0] and c[1] and c[2]) or (c[7] == "unset" and not c[0] and not c[1] and c[2]))]
-        combos = rng.sample(good, 170) + corners + rng.sample(bad, 110)
+        # the multi-command program over several files in every mode, on standard output and into both files (the order of the result list is part of the result)
+        fixed = [(True, False, True, js, False, jf, jf, mode, False, "several", fs) for mode in ("unset", "NEW", "NOTHING", "OVERWRITE") for fs in ("several", "glob", "overlap")
+                 for js, jf in ((True, False), (False, True))]
+        combos = rng.sample(good, 150) + fixed + corners + rng.sample(bad, 110)
     # decisions of the proved model
     def b(x):
         return "t" if x else "f"
